@@ -33,7 +33,7 @@ json.dump(res, open(out, "w"), indent=1, sort_keys=True)
 
 # ---- human-readable summary
 lines = ["# Seeded property-breaking changes", "",
-         "Written by independent sub-agents (property text + scratch worktree only); each passes the 138 repository tests and was re-confirmed with",
+         "Written by independent sub-agents (property text + scratch worktree only); each passes the 138 repository tests (two marked invalid do so only under some hash seeds) and was re-confirmed with",
          "`tools/seedcheck.py` (demo exits 0 on the clean tree, non-zero with the patch).  `detected` = the owning property's quick check exits 1 on the",
          "repaired tree + patch (run through `tools/mut.py`, i.e. a scratch copy via NMFU_REPO).", "",
          "| seed | property check | detected | what it needs / note |", "|---|---|---|---|"]
@@ -46,12 +46,15 @@ for name in sorted(res):
         pass
     needs = (meta.get("needs") or "")[:160].replace("|", "/").replace("\n", " ")
     if not r.get("applies"):
-        lines.append("| %s | %s | n/a | %s |" % (name, name.split("_")[0], r.get("note", "")[:160]))
+        lines.append("| %s | %s | n/a | %s %s |" % (name, name.split("_")[0], r.get("note", "")[:160], ("**[superseded: %s]**" % meta["superseded"][:160]) if meta.get("superseded") else ""))
         continue
     prop = name.split("_")[0]
     det = r.get(prop, {}).get("detected")
     others = [k for k, v in r.items() if isinstance(v, dict) and k != prop and v.get("detected")]
     note = needs + ((" (also caught by " + ", ".join(others) + ")") if others else "")
+    for key in ("invalid", "superseded", "rebased"):
+        if meta.get(key):
+            note += " **[%s: %s]**" % (key, meta[key][:140].replace("|", "/"))
     if det is False:
         extra = (meta.get("our_checks") or {})
         also = [k for k, v in extra.items() if "exit=1" in v]
